@@ -20,7 +20,8 @@ from .. import peer as P
 from ..profile import Profile
 from . import c10
 
-KINDS = ['status', 'negotiate', 'negotiate_out', 'login_comp', 'login_enc', 'play']
+KINDS = ['status', 'negotiate', 'negotiate_out', 'login_comp', 'login_enc', 'play', 'play_big', 'enc_big']
+BIG = 20000         # one frame well beyond 16 KiB (chunk data, a large plugin message): cut offsets inside it are sampled
 FALLBACK = {'negotiate': 340, 'negotiate_out': 498}     # negotiate_out: the default version is supported but not among the allowed ones
 
 
@@ -91,7 +92,7 @@ def conversation(kind, cut, seed):
                         info['status_again'] = info.get('status_again', 0) + 1
                         s.steps[s.pc + 1:] = [('close',)]
                 steps.append(('call', status_again))
-            if kind == 'login_enc':
+            if kind in ('login_enc', 'enc_big'):
                 tok = b'\x0a\x0b\x0c\x0d'
 
                 def after_resp(s):
@@ -114,6 +115,9 @@ def conversation(kind, cut, seed):
             add_emit(sc, rec, steps, lambda s: s.prof.keep_alive(11))
             pid = lambda s: P.VI(s.prof.cb.play.PluginMessagePacket.get_id(s.prof.ctx))    # noqa
             add_emit(sc, rec, steps, lambda s: pid(s) + P.S('ref:a') + bytes(range(200)))
+            if kind in ('play_big', 'enc_big'):
+                add_emit(sc, rec, steps, lambda s: pid(s) + P.S('ref:big') + bytes((i * 31 + 5) % 256 for i in range(BIG)))
+                add_emit(sc, rec, steps, lambda s: s.prof.keep_alive(13))
             if kind == 'play':
                 add_emit(sc, rec, steps, lambda s: P.VI(s.prof.unknown_id('play')) + b'\x01' * 30)
                 add_emit(sc, rec, steps, lambda s: s.prof.pos_look(1.0, 64.0, 1.0, 0.0, 0.0, 0, 3))
@@ -205,7 +209,12 @@ def run(chk):
         for ci, n in enumerate(lengths[kind]):
             boundaries = set(conns0[ci]['frames'])
             for off in range(0, n + 1):
-                if quick and not (off % 2 == chk.seed % 2 or any(abs(off - b) <= 2 for b in boundaries) or off < 4):
+                near = any(abs(off - b) <= 2 for b in boundaries)
+                if kind in ('play_big', 'enc_big'):
+                    # a 20 KB frame: boundaries, and a sample of the offsets in between (every 701st / 97th)
+                    if not (near or off < 4 or off % (701 if quick else 97) == (chk.seed * 13) % 97):
+                        continue
+                elif quick and not (off % 2 == chk.seed % 2 or near or off < 4):
                     continue
                 run_, conns, obs = conversation(kind, (ci, off), chk.seed * 1009 + off)
                 chk.traces += 1
